@@ -20,7 +20,20 @@ def main():
         from crosshair.options import AnalysisOptionSet, AnalysisKind
         from crosshair.statespace import MessageType
         sys.setrecursionlimit(20000)
-        mod = importlib.import_module(modname)
+        try:
+            mod = importlib.import_module(modname)
+        except Exception as e:
+            # building the parsers of the property's corpus is part of what is checked: an exception raised *inside lark* while the
+            # harness module sets up is reported as a counterexample candidate (replayed natively by the runner), not as a harness error
+            tb = traceback.extract_tb(e.__traceback__)
+            in_lark = bool(tb) and (os.sep + 'lark' + os.sep) in tb[-1].filename and 'vfw' not in tb[-1].filename
+            res['status'] = 'setup_failed_in_lark' if in_lark else 'error'
+            res['error'] = ''.join(traceback.format_exception(type(e), e, e.__traceback__))[-4000:]
+            res['exc_type'] = type(e).__name__
+            res['wall_s'] = round(time.time() - t0, 3)
+            with open(out, 'w') as f:
+                json.dump(res, f, default=repr)
+            return
         res['import_s'] = round(time.time() - t0, 3)
         fn = getattr(mod, funcname)
         opts = AnalysisOptionSet(per_condition_timeout=float(ctimeout), per_path_timeout=float(ptimeout),
